@@ -21,6 +21,7 @@ import (
 	"sort"
 	"strings"
 	"sync"
+	"time"
 
 	"github.com/vkd/goag"
 	"verif/rt"
@@ -211,6 +212,23 @@ var pkgErrRe = regexp.MustCompile(`(?m)^(?:# )?(?:verifscratch/|mod/|\./mod/)?(p
 
 // buildBatch builds one binary importing every ok package; packages that do not compile
 // are marked Broken and excluded (their diagnostics kept). Returns the binary path.
+// goEnv: the environment of every `go` invocation on generated packages. Their build outputs go
+// to a cache of their own (VH_BATCH_GOCACHE, managed by the check driver) because no entry of a
+// package compiled at a unique scratch path is ever reused.
+func goEnv() []string {
+	env := append(os.Environ(), "GOFLAGS=-mod=mod", "GOPROXY=off", "GOSUMDB=off", "GOTOOLCHAIN=local")
+	if c := os.Getenv("VH_BATCH_GOCACHE"); c != "" {
+		env = append(env, "GOCACHE="+c)
+	}
+	return env
+}
+
+// armWatchdog runs onHang if it is not disarmed within d.
+func armWatchdog(d time.Duration, onHang func()) (disarm func()) {
+	t := time.AfterFunc(d, onHang)
+	return func() { t.Stop() }
+}
+
 // buildRace / batchEnv: the conc facet compiles the batch binary with the race detector.
 var (
 	buildRace bool
@@ -251,7 +269,7 @@ func buildBatch(work string, results []GenResult) (string, error) {
 		}
 		cmd := exec.Command("go", buildArgs...)
 		cmd.Dir = modDir
-		cmd.Env = append(os.Environ(), "GOFLAGS=-mod=mod", "GOPROXY=off", "GOSUMDB=off", "GOTOOLCHAIN=local")
+		cmd.Env = goEnv()
 		out, err := cmd.CombinedOutput()
 		if err == nil {
 			return bin, nil
